@@ -553,6 +553,7 @@ pub fn run_conc(case: &ConcCase, record_all: bool, budget: usize) -> ConcResult 
         let drops = VAL_DROPS.lock().unwrap().clone();
         life_failures.extend(crate::life::analyze(&trace, &spans, &drops));
         life_failures.extend(crate::life::lock_discipline(&trace));
+        life_failures.extend(crate::life::unlocked_writes(&trace));
         let (hbf, _st) = crate::hb::analyze(&trace, n);
         life_failures.extend(hbf);
     }
@@ -1031,6 +1032,24 @@ pub fn judge(case: &ConcCase, r: &ConcResult) -> Verdicts {
                     f.push(format!("[read-blocks] t{} {} performed {:?} at {}:{}", c.tid, c.op.text(), e.kind, e.file, e.line));
                     break;
                 }
+            }
+        }
+    }
+    // C14: "removing entries - by any operation - never makes it grow": a call that only removes
+    // must not be the one that initiates a resize (the CAS that takes `size_ctl` from a threshold
+    // to a negative resize stamp)
+    for c in &r.calls {
+        let removal = matches!(c.op, COp::Rm(_) | COp::Rme(_) | COp::CipRm(_) | COp::Retain(..) | COp::RetainPanic(..) | COp::Clear | COp::CipPanic(_));
+        if !removal {
+            continue;
+        }
+        for e in &r.trace[c.trace_from.min(r.trace.len())..c.trace_to.min(r.trace.len())] {
+            if e.tid == c.tid && matches!(e.kind, Kind::Cas | Kind::Yield) && e.seen == e.a && e.what == "size_ctl" && (e.a as isize) >= 0 && (e.b as isize) < -1 {
+                f.push(format!(
+                    "[removal-grows] t{} {} (a call that only removes) initiated a resize: size_ctl {} -> {:#x} at {}:{}",
+                    c.tid, c.op.text(), e.a as isize, e.b, e.file, e.line
+                ));
+                break;
             }
         }
     }
